@@ -202,6 +202,11 @@ class ExecMixin:
                 self.bi.list_extend(state, cur, rhs, st)
                 return
         v = self.binop(st.op, cur, rhs, st, state)
+        h = self.hooks.get("aug")
+        if h is not None:
+            r = h(self, st, cur, rhs, v, state)
+            if r is not None:
+                v = r
         self.assign(st.target, v, state, st)
 
     def assign(self, target, v: Val, state: State, st) -> None:
